@@ -82,7 +82,7 @@ macro "hold_side" : tactic => `(tactic| first
       | (refine StatesOk.of_qs_eq ?_ (pushFront_statesOk s _ _); (first | rfl | (simp; rfl)))
       | (refine StatesOk.of_qs_eq (Y := (s.newJob _ _).1.pushBack _ _) ?_ (StatesOk.of_qs_eq (Y := s.pushBack _ _) ?_ (pushBack_statesOk s _ _)) <;> (first | rfl | (simp [State.newJob, State.pushBack]; done)))
       | (exact holds_pcAt_append rfl (by intro q; simp [Pc.holds]))
-      | (refine StatesOk.setQ (by assumption) rfl ?_; first | exact id | exact wakeQueue_held _ | exact wakeThread_held _ | exact desyncPush_held _ | exact reschedule_held _ _ | exact syncDecide_held _ _ | exact trySync_held _ _ | exact claim_held _ | exact nextToRun_held _ | exact pollDecide_held _ _ | exact runOnePending_held _ | (exact drainExit_held _ _ (by simp_all)) | (exact drainPending_held _ (by simp_all)))
+      | (refine StatesOk.setQ (by assumption) rfl ?_; first | exact id | exact wakeQueue_held _ | exact futureDrop_held _ _ | exact wakeThread_held _ | exact desyncPush_held _ | exact reschedule_held _ _ | exact syncDecide_held _ _ | exact trySync_held _ _ | exact claim_held _ | exact nextToRun_held _ | exact pollDecide_held _ _ | exact runOnePending_held _ | (exact drainExit_held _ _ (by simp_all)) | (exact drainPending_held _ (by simp_all)))
       | (refine StatesOk.setQ (by assumption) (by simp [State.setQ, State.newJob, State.pushBack, State.pushFront, *]) ?_; exact id)
       | (intro b q; rfl)
       | (intro b q; simp [State.newJob]; done)
